@@ -15,6 +15,13 @@ pub trait IterExt<T> {
         requires forall|i: int| 0 <= i < self.elems().len() ==> call_requires(f, (&#[trigger] self.elems()[i],)),
         ensures r ==> exists|k: int| 0 <= k < self.elems().len() && call_ensures(f, (&#[trigger] self.elems()[k],), true),
             !r ==> forall|j: int| 0 <= j < self.elems().len() ==> call_ensures(f, (&#[trigger] self.elems()[j],), false);
+    fn iter_find<F: Fn(&T) -> bool>(&self, f: F) -> (r: Option<&T>)
+        requires forall|i: int| 0 <= i < self.elems().len() ==> call_requires(f, (&#[trigger] self.elems()[i],)),
+        ensures match r {
+            Some(x) => exists|k: int| 0 <= k < self.elems().len() && *x == #[trigger] self.elems()[k] && call_ensures(f, (&self.elems()[k],), true)
+                && forall|j: int| 0 <= j < k ==> call_ensures(f, (&#[trigger] self.elems()[j],), false),
+            None => forall|j: int| 0 <= j < self.elems().len() ==> call_ensures(f, (&#[trigger] self.elems()[j],), false),
+        };
     fn iter_all<F: Fn(&T) -> bool>(&self, f: F) -> (r: bool)
         requires forall|i: int| 0 <= i < self.elems().len() ==> call_requires(f, (&#[trigger] self.elems()[i],)),
         ensures r ==> forall|j: int| 0 <= j < self.elems().len() ==> call_ensures(f, (&#[trigger] self.elems()[j],), true),
@@ -32,6 +39,23 @@ impl<T> IterExt<T> for Vec<T> {
         {
             assert(call_requires(f, (&self.elems()[i as int],)));
             if f(&self[i]) { return Some(i); }
+            i += 1;
+        }
+        None
+    }
+    fn iter_find<F: Fn(&T) -> bool>(&self, f: F) -> (r: Option<&T>) {
+        let mut i: usize = 0;
+        while i < self.len()
+            invariant i <= self.len(), self.elems() == self@,
+                forall|j: int| 0 <= j < self.elems().len() ==> call_requires(f, (&#[trigger] self.elems()[j],)),
+                forall|j: int| 0 <= j < i ==> call_ensures(f, (&#[trigger] self.elems()[j],), false),
+            decreases self.len() - i,
+        {
+            assert(call_requires(f, (&self.elems()[i as int],)));
+            if f(&self[i]) {
+                assert(call_ensures(f, (&self.elems()[i as int],), true));
+                return Some(&self[i]);
+            }
             i += 1;
         }
         None
@@ -114,5 +138,115 @@ impl IterMaxU8 for Vec<u8> {
         }
         Some(&self[best])
     }
+}
+
+/// `.iter().map(f).collect::<Vec<_>>()`, `.iter().map(f).collect::<Result<Vec<_>, E>>()`, `.into_iter().filter(p).collect()`
+pub trait IterMapExt<T> {
+    spec fn mv(&self) -> Seq<T>;
+    fn iter_map<U, F: Fn(&T) -> U>(&self, f: F) -> (r: Vec<U>)
+        requires forall|i: int| 0 <= i < self.mv().len() ==> call_requires(f, (&#[trigger] self.mv()[i],)),
+        ensures r@.len() == self.mv().len(), forall|i: int| 0 <= i < self.mv().len() ==> call_ensures(f, (&self.mv()[i],), #[trigger] r@[i]);
+    fn iter_try_map<U, E, F: Fn(&T) -> Result<U, E>>(&self, f: F) -> (r: Result<Vec<U>, E>)
+        requires forall|i: int| 0 <= i < self.mv().len() ==> call_requires(f, (&#[trigger] self.mv()[i],)),
+        ensures match r {
+            Ok(v) => v@.len() == self.mv().len() && forall|i: int| 0 <= i < self.mv().len() ==> call_ensures(f, (&self.mv()[i],), Ok::<U, E>(#[trigger] v@[i])),
+            Err(e) => exists|i: int| 0 <= i < self.mv().len() && call_ensures(f, (&#[trigger] self.mv()[i],), Err::<U, E>(e)),
+        };
+    fn into_iter_filter<F: Fn(&T) -> bool>(self, f: F) -> (r: Vec<T>)
+        requires forall|i: int| 0 <= i < self.mv().len() ==> call_requires(f, (&#[trigger] self.mv()[i],)),
+        ensures exists|p: spec_fn(T) -> bool| r@ == #[trigger] self.mv().filter(p) && forall|x: T| call_ensures(f, (&x,), #[trigger] p(x));
+}
+/// `r` is `s` with the elements rejected by `keep` removed (order preserved)
+pub open spec fn filtered<T>(s: Seq<T>, keep: spec_fn(T) -> bool, r: Seq<T>) -> bool {
+    r == s.filter(keep)
+}
+impl<T> IterMapExt<T> for Vec<T> {
+    open spec fn mv(&self) -> Seq<T> { self@ }
+    fn iter_map<U, F: Fn(&T) -> U>(&self, f: F) -> (r: Vec<U>)
+    {
+        let mut out: Vec<U> = Vec::new();
+        let mut i: usize = 0;
+        while i < self.len()
+            invariant i <= self.len(), out@.len() == i, self.mv() == self@,
+                forall|j: int| 0 <= j < self.mv().len() ==> call_requires(f, (&#[trigger] self.mv()[j],)),
+                forall|j: int| 0 <= j < i ==> call_ensures(f, (&self.mv()[j],), #[trigger] out@[j]),
+            decreases self.len() - i,
+        {
+            assert(call_requires(f, (&self.mv()[i as int],)));
+            let u = f(&self[i]);
+            out.push(u);
+            i += 1;
+        }
+        out
+    }
+    fn iter_try_map<U, E, F: Fn(&T) -> Result<U, E>>(&self, f: F) -> (r: Result<Vec<U>, E>)
+    {
+        let mut out: Vec<U> = Vec::new();
+        let mut i: usize = 0;
+        while i < self.len()
+            invariant i <= self.len(), out@.len() == i, self.mv() == self@,
+                forall|j: int| 0 <= j < self.mv().len() ==> call_requires(f, (&#[trigger] self.mv()[j],)),
+                forall|j: int| 0 <= j < i ==> call_ensures(f, (&self.mv()[j],), Ok::<U, E>(#[trigger] out@[j])),
+            decreases self.len() - i,
+        {
+            assert(call_requires(f, (&self.mv()[i as int],)));
+            match f(&self[i]) {
+                Ok(u) => { out.push(u); }
+                Err(e) => { return Err(e); }
+            }
+            i += 1;
+        }
+        Ok(out)
+    }
+    /// trusted (external_body): keeps, in order, exactly the elements on which the predicate returned true
+    /// (`p(x)` is the value `f` returned on `x`)
+    #[verifier::external_body]
+    fn into_iter_filter<F: Fn(&T) -> bool>(self, f: F) -> (r: Vec<T>)
+    { unimplemented!() }
+}
+
+pub proof fn lemma_filter_same_pred<T>(s: Seq<T>, p1: spec_fn(T) -> bool, p2: spec_fn(T) -> bool)
+    requires forall|x: T| #[trigger] p1(x) == p2(x),
+    ensures s.filter(p1) == s.filter(p2),
+    decreases s.len(),
+{
+    reveal(Seq::filter);
+    if s.len() > 0 {
+        lemma_filter_same_pred(s.drop_last(), p1, p2);
+    }
+}
+/// every element of a filtered sequence occurs in the original sequence and satisfies the predicate
+pub proof fn lemma_filter_member<T>(s: Seq<T>, p: spec_fn(T) -> bool, k: int)
+    requires 0 <= k < s.filter(p).len(),
+    ensures p(s.filter(p)[k]), exists|i: int| 0 <= i < s.len() && #[trigger] s[i] == s.filter(p)[k],
+    decreases s.len(),
+{
+    reveal(Seq::filter);
+    if s.len() > 0 {
+        let sub = s.drop_last().filter(p);
+        if p(s.last()) {
+            assert(s.filter(p) == sub.push(s.last()));
+            if k < sub.len() {
+                lemma_filter_member(s.drop_last(), p, k);
+                let i = choose|i: int| 0 <= i < s.drop_last().len() && #[trigger] s.drop_last()[i] == sub[k];
+                assert(s[i] == s.filter(p)[k]);
+            } else {
+                assert(s[s.len() - 1] == s.filter(p)[k]);
+            }
+        } else {
+            assert(s.filter(p) == sub);
+            lemma_filter_member(s.drop_last(), p, k);
+            let i = choose|i: int| 0 <= i < s.drop_last().len() && #[trigger] s.drop_last()[i] == sub[k];
+            assert(s[i] == s.filter(p)[k]);
+        }
+    }
+}
+/// `r` was obtained by filtering `s` with some predicate that agrees with `p2` everywhere  =>  r == s.filter(p2)
+pub proof fn lemma_filter_congr<T>(s: Seq<T>, r: Seq<T>, p2: spec_fn(T) -> bool)
+    requires exists|p1: spec_fn(T) -> bool| r == #[trigger] s.filter(p1) && forall|x: T| #[trigger] p1(x) == p2(x),
+    ensures r == s.filter(p2),
+{
+    let p1 = choose|p1: spec_fn(T) -> bool| r == #[trigger] s.filter(p1) && forall|x: T| #[trigger] p1(x) == p2(x);
+    lemma_filter_same_pred(s, p1, p2);
 }
 } // verus!
